@@ -76,12 +76,12 @@ func podEvent(e api.Event) bool {
 }
 
 var (
-	kindIdx = map[string][]int{} // kind -> registry indices of the types WITHOUT Configure (index+1 has it)
+	kindIdx = map[string][]int{} // kind -> registry indices of the plain variant of each handler set (+1: Configure, +2: Synchronize)
 )
 
 func init() {
 	for i, e := range registry {
-		if !e.HasConfigure {
+		if !e.HasConfigure && !e.HasSync {
 			kindIdx[e.Kind] = append(kindIdx[e.Kind], i)
 		}
 	}
@@ -101,6 +101,12 @@ type C15Req struct {
 	Err   string `json:"err,omitempty"` // ... with this text
 }
 
+// C15Chunk is one SynchronizeRequest message: indices into the pod and container pools.
+type C15Chunk struct {
+	Pods []int `json:"pods"`
+	Ctrs []int `json:"ctrs"`
+}
+
 // C15Session is one connection of the stub to a runtime: what the plugin's Configure handler
 // returns this time, the Configure request, the requests, and how the session ends.
 type C15Session struct {
@@ -109,11 +115,18 @@ type C15Session struct {
 	CfgFail bool   `json:"cfg_fail,omitempty"`
 	CfgErr  string `json:"cfg_err,omitempty"`
 	// The Configure request.
-	Config  string   `json:"config,omitempty"`
-	Runtime string   `json:"runtime,omitempty"`
-	Version string   `json:"version,omitempty"`
-	Sync    bool     `json:"sync,omitempty"` // send a Synchronize (pods, containers of the pools) after Configure
-	Reqs    []C15Req `json:"reqs"`
+	Config  string `json:"config,omitempty"`
+	Runtime string `json:"runtime,omitempty"`
+	Version string `json:"version,omitempty"`
+	// The Synchronize request after Configure, sent as len(SyncChunks) messages (none when
+	// empty). All but the last carry More=true; the last one too unless SyncFinal - then the
+	// runtime goes away in the middle of the synchronization: no requests, the session ends.
+	SyncChunks []C15Chunk `json:"sync_chunks,omitempty"`
+	SyncFinal  bool       `json:"sync_final,omitempty"`
+	SyncUpd    int        `json:"sync_upd"`            // scripted updates of the Synchronize handler: index into Updates, -1 = nil
+	SyncFail   bool       `json:"sync_fail,omitempty"` // the Synchronize handler fails ...
+	SyncErr    string     `json:"sync_err,omitempty"`  // ... with this text
+	Reqs       []C15Req   `json:"reqs"`
 	// How the session ends: "close" = the runtime end closes the connection, "stop" = the
 	// plugin calls Stop(). (A session whose configuration failed has ended already.)
 	End string `json:"end"`
@@ -405,7 +418,7 @@ func genSession(t *rapid.T, ent typeEntry, c *C15Case, nsess int) C15Session {
 		Config:  rapid.OneOf(rapid.Just(""), gen.Str(), rapid.Just("logLevel: debug\nevents: [a, b]\n")).Draw(t, "config"),
 		Runtime: rapid.SampledFrom([]string{"containerd", "cri-o", "verif", ""}).Draw(t, "runtime"),
 		Version: rapid.OneOf(rapid.StringMatching(`v?[0-9]\.[0-9]{1,2}(\.[0-9])?`), rapid.Just("")).Draw(t, "version"),
-		Sync:    rapid.Bool().Draw(t, "sync"),
+		SyncUpd: -1,
 		End:     rapid.SampledFrom([]string{"close", "stop"}).Draw(t, "end"),
 	}
 	if ent.HasConfigure {
@@ -442,12 +455,31 @@ func genSession(t *rapid.T, ent typeEntry, c *C15Case, nsess int) C15Session {
 	}
 
 	np, nc, nr, na, nu := len(c.Pods), len(c.Ctrs), len(c.Res), len(c.Adjusts), len(c.Updates)
+	// the synchronization: usually one message, often split, sometimes cut short
+	nchunks := rapid.SampledFrom([]int{0, 1, 1, 1, 2, 2, 3, 4}).Draw(t, "syncchunks")
+	for i := 0; i < nchunks; i++ {
+		s.SyncChunks = append(s.SyncChunks, C15Chunk{
+			Pods: rapid.SliceOfN(rapid.IntRange(0, np-1), 0, 3).Draw(t, "syncpods"),
+			Ctrs: rapid.SliceOfN(rapid.IntRange(0, nc-1), 0, 3).Draw(t, "syncctrs"),
+		})
+	}
+	if nchunks > 0 {
+		s.SyncFinal = nsess == 1 || !maybe(t, "syncunfinished", 5)
+		s.SyncUpd = rapid.IntRange(-1, nu-1).Draw(t, "syncupd")
+		if maybe(t, "syncfail", 5) {
+			s.SyncFail = true
+			s.SyncErr = genErrText(t)
+		}
+	}
 	implEv, unimplEv := bitsOf(impl), bitsOf(unimpl)
 	lo, hi := 5, 30
 	if nsess > 1 { // several sessions: shorter request lists each, a similar total
 		lo, hi = 3, 14
 	}
 	nreq := rapid.IntRange(lo, hi).Draw(t, "nreq")
+	if nchunks > 0 && !s.SyncFinal {
+		nreq = 0 // the runtime went away before the synchronization was complete
+	}
 	for i := 0; i < nreq; i++ {
 		var e api.Event
 		mode := rapid.SampledFrom([]string{"any", "any", "impl", "unimpl"}).Draw(t, "evmode")
@@ -486,7 +518,10 @@ func genC15(t *rapid.T) C15Case {
 	ids := kindIdx[kind]
 	ti := ids[rapid.IntRange(0, len(ids)-1).Draw(t, "set")]
 	if rapid.IntRange(0, 9).Draw(t, "hascfg") < 6 {
-		ti++ // the variant with a Configure method
+		ti++ // the variants with a Configure method
+	}
+	if rapid.Bool().Draw(t, "hassync") {
+		ti += 2 // the variants with a Synchronize method
 	}
 	ent := registry[ti]
 	c := C15Case{Type: ti}
@@ -768,6 +803,21 @@ func validCase(c C15Case) string {
 		if s.End != "close" && s.End != "stop" {
 			return "unknown session end"
 		}
+		if s.SyncUpd < -1 || s.SyncUpd >= len(c.Updates) {
+			return "sync update index out of range"
+		}
+		for _, ch := range s.SyncChunks {
+			for _, i := range ch.Pods {
+				if i < 0 || i >= len(c.Pods) {
+					return "sync pod index out of range"
+				}
+			}
+			for _, i := range ch.Ctrs {
+				if i < 0 || i >= len(c.Ctrs) {
+					return "sync container index out of range"
+				}
+			}
+		}
 		for _, r := range s.Reqs {
 			if r.Event < 1 || r.Event > 13 || r.Pod < 0 || r.Pod >= len(c.Pods) || r.Ctr < 0 || r.Ctr >= len(c.Ctrs) ||
 				r.Res < 0 || r.Res >= len(c.Res) || r.Ovh < 0 || r.Ovh >= len(c.Res) ||
@@ -875,6 +925,8 @@ type caseRun struct {
 	sawUnimp bool
 	narrowed api.EventMask // union of proper non-zero subsets earlier sessions were subscribed to (classes only)
 	hadSub   bool
+	hadSplit bool // an earlier session left the stub after a split or unfinished synchronization (classes only)
+	hadUnfin bool
 }
 
 func (cr *caseRun) note(f string, a ...any) { cr.hist = append(cr.hist, fmt.Sprintf(f, a...)) }
@@ -912,6 +964,11 @@ func runC15Once(c C15Case) (out ev.Outcome, overloaded bool) {
 		cr.classes["hascfg:yes"] = true
 	} else {
 		cr.classes["hascfg:no"] = true
+	}
+	if ent.HasSync {
+		cr.classes["hassync:yes"] = true
+	} else {
+		cr.classes["hassync:no"] = true
 	}
 	cr.classes[fmt.Sprintf("sessions:%d", len(c.Sessions))] = true
 
@@ -1064,19 +1121,118 @@ func (cr *caseRun) runSession(k int, s *session) (verdict, string) {
 		cr.narrowed |= wantMask
 	}
 
-	// --- optional Synchronize (no generated type handles it: nothing may be invoked) -------------
-	if sc.Sync {
-		classes["sync:sent"] = true
+	// --- Synchronize, possibly split into several messages ---------------------------------------
+	// "delivered exactly once to the handler ... with the pod, container ... carried by the
+	// message": the handler runs once, on the final message, with what THIS session's messages
+	// carried, in order; the More=true messages only collect.
+	switch n := len(sc.SyncChunks); {
+	case n == 0:
+		classes["sync:none"] = true
+	case !sc.SyncFinal:
+		classes["sync:unfinished"] = true
+	case n == 1:
+		classes["sync:unsplit"] = true
+	default:
+		classes["sync:split"] = true
+	}
+	if ent.HasSync && len(sc.SyncChunks) > 0 && sc.SyncFinal {
+		if cr.hadSplit {
+			classes["resync:after-split-or-unfinished"] = true
+		}
+		if cr.hadUnfin {
+			classes["resync:after-unfinished"] = true
+		}
+	}
+	var allPods []*api.PodSandbox
+	var allCtrs []*api.Container
+	for i, ch := range sc.SyncChunks {
+		more := i < len(sc.SyncChunks)-1 || !sc.SyncFinal
+		req := &api.SynchronizeRequest{More: more}
+		for _, p := range ch.Pods {
+			req.Pods = append(req.Pods, c.Pods[p])
+		}
+		for _, p := range ch.Ctrs {
+			req.Containers = append(req.Containers, c.Ctrs[p])
+		}
+		allPods = append(allPods, req.Pods...)
+		allCtrs = append(allCtrs, req.Containers...)
+		var upd []*api.ContainerUpdate
+		if sc.SyncUpd >= 0 {
+			upd = c.Updates[sc.SyncUpd]
+		}
+		var herr error
+		if sc.SyncFail {
+			herr = errors.New(sc.SyncErr)
+		}
+		rec.script(scripted{Updates: upd, Err: herr})
 		before := len(rec.snapshot())
 		ctx, cancel := stepCtx()
-		_, serr := s.plugin.Synchronize(ctx, &api.SynchronizeRequest{Pods: c.Pods, Containers: c.Ctrs})
+		srpl, serr := s.plugin.Synchronize(ctx, req)
 		cancel()
 		if slow(serr) {
 			return vSlow, "Synchronize"
 		}
-		cr.note("%s Synchronize -> err=%v", tag, serr)
-		if extra := rec.snapshot()[before:]; len(extra) != 0 {
-			return fail("Synchronize invoked %s", handlersOf(extra))
+		inv := rec.snapshot()[before:]
+		where := fmt.Sprintf("Synchronize message %d of %d (more=%v, %d pods, %d containers)", i+1, len(sc.SyncChunks), more, len(req.Pods), len(req.Containers))
+		cr.note("%s %s -> invoked=%s more=%v updates=%d err=%v", tag, where, handlersOf(inv), srpl.GetMore(), len(srpl.GetUpdate()), serr)
+		if !ent.HasSync {
+			// no Synchronize handler: nothing to deliver to, every message succeeds
+			if len(inv) != 0 {
+				return fail("%s: the type has no Synchronize handler, yet %s ran", where, handlersOf(inv))
+			}
+			if serr != nil {
+				return fail("%s: the type has no Synchronize handler, the runtime got error %v", where, serr)
+			}
+			continue
+		}
+		if more {
+			if len(inv) != 0 {
+				return fail("%s: more messages follow, yet %s ran", where, handlersOf(inv))
+			}
+			if serr != nil {
+				return fail("%s: more messages follow, the runtime got error %v", where, serr)
+			}
+			if !proto.Equal(srpl, &api.SynchronizeResponse{More: true}) {
+				return fail("%s: more messages follow, the runtime got %s, want {more:true}", where, short(srpl))
+			}
+			continue
+		}
+		cr.expected++
+		if len(inv) != 1 || inv[0].Handler != hSynchronize {
+			return fail("%s: invoked %s, want exactly [Synchronize]", where, handlersOf(inv))
+		}
+		if why := sameObjects(inv[0].Pods, allPods, inv[0].Ctrs, allCtrs); why != "" {
+			return fail("%s: the Synchronize handler did not get what this session's messages carried: %s", where, why)
+		}
+		if sc.SyncFail {
+			classes["script:sync-error"] = true
+			if serr == nil {
+				return fail("%s: handler failed with %q, the runtime got success %s", where, sc.SyncErr, short(srpl))
+			}
+			st, ok := status.FromError(serr)
+			if !ok {
+				return fail("%s: handler failed with %q, the runtime got a transport error %v", where, sc.SyncErr, serr)
+			}
+			if st.Message() != sc.SyncErr {
+				return fail("%s: handler failed with %q, the runtime received %q", where, sc.SyncErr, st.Message())
+			}
+			continue
+		}
+		classes["script:sync-updates"] = true
+		if serr != nil {
+			return fail("%s: handler succeeded, the runtime got error %v", where, serr)
+		}
+		if want := (&api.SynchronizeResponse{Update: upd}); !proto.Equal(srpl, want) {
+			return fail("%s: handler returned %s, the runtime received %s", where, short(want), short(srpl))
+		}
+	}
+	if n := len(sc.SyncChunks); n > 0 {
+		if !sc.SyncFinal {
+			cr.hadSplit, cr.hadUnfin = true, true
+			return vOK, "" // the runtime went away in the middle of the synchronization
+		}
+		if n > 1 {
+			cr.hadSplit = true
 		}
 	}
 
@@ -1228,6 +1384,37 @@ func (cr *caseRun) runSession(k int, s *session) (verdict, string) {
 	}
 	return vOK, ""
 }
+
+// sameObjects compares what the Synchronize handler got with what was sent, element by element.
+func sameObjects(gotP, wantP []*api.PodSandbox, gotC, wantC []*api.Container) string {
+	ids := func(ps []*api.PodSandbox, cs []*api.Container) string {
+		var n []string
+		for _, p := range ps {
+			n = append(n, p.GetId())
+		}
+		n = append(n, "|")
+		for _, c := range cs {
+			n = append(n, c.GetId())
+		}
+		return "[" + strings.Join(n, " ") + "]"
+	}
+	if len(gotP) != len(wantP) || len(gotC) != len(wantC) {
+		return fmt.Sprintf("handler got %d pods and %d containers %s, the messages carried %d and %d %s",
+			len(gotP), len(gotC), ids(gotP, gotC), len(wantP), len(wantC), ids(wantP, wantC))
+	}
+	for i := range wantP {
+		if !proto.Equal(gotP[i], wantP[i]) {
+			return fmt.Sprintf("pod #%d is %s, sent %s", i, short(gotP[i]), short(wantP[i]))
+		}
+	}
+	for i := range wantC {
+		if !proto.Equal(gotC[i], wantC[i]) {
+			return fmt.Sprintf("container #%d is %s, sent %s", i, short(gotC[i]), short(wantC[i]))
+		}
+	}
+	return ""
+}
+
 func rplMask(r *api.ConfigureResponse) string {
 	if r == nil {
 		return "<no response>"
@@ -1268,7 +1455,7 @@ func TestProp_C15(t *testing.T) { ev.Run(t, "C15", genC15, runC15) }
 
 // implementsByAssertion derives the implemented mask of a plugin value with the harness's own
 // interface assertions (a check of the generated registry, not of the stub).
-func implementsByAssertion(p interface{}) (api.EventMask, bool) {
+func implementsByAssertion(p interface{}) (api.EventMask, bool, bool) {
 	var m api.EventMask
 	if _, ok := p.(stub.RunPodInterface); ok {
 		m |= evbit(api.Event_RUN_POD_SANDBOX)
@@ -1310,7 +1497,8 @@ func implementsByAssertion(p interface{}) (api.EventMask, bool) {
 		m |= evbit(api.Event_POST_UPDATE_CONTAINER)
 	}
 	_, cfg := p.(stub.ConfigureInterface)
-	return m, cfg
+	_, syn := p.(stub.SynchronizeInterface)
+	return m, cfg, syn
 }
 
 // TestExh_C15 sweeps the finite part of the domain completely: every generated type is run
@@ -1320,6 +1508,8 @@ func implementsByAssertion(p interface{}) (api.EventMask, bool) {
 // (must be rejected). Restart sweep: every type is connected three times in a row on one stub;
 // types with a Configure handler go through subset -> 0 -> the complementary subset, and through
 // rejected -> error -> implemented mask, so that every configuration is judged after a different one.
+// Types with a Synchronize handler: six sessions of one stub whose synchronizations are split,
+// unsplit and cut short in turn.
 func TestExh_C15(t *testing.T) {
 	r := ev.Get("C15")
 	defer r.Flush()
@@ -1327,28 +1517,33 @@ func TestExh_C15(t *testing.T) {
 	// the registry is what it says it is
 	seenMask := map[api.EventMask]int{}
 	for i, ent := range registry {
-		m, cfg := implementsByAssertion(ent.New(&rec{}))
-		if m != ent.Mask || cfg != ent.HasConfigure || m == 0 {
-			t.Fatalf("harness: registry entry %d (%s) declares mask %s configure=%v, the Go type implements %s configure=%v",
-				i, ent.Name, maskStr(ent.Mask), ent.HasConfigure, maskStr(m), cfg)
+		m, cfg, syn := implementsByAssertion(ent.New(&rec{}))
+		if m != ent.Mask || cfg != ent.HasConfigure || syn != ent.HasSync || m == 0 {
+			t.Fatalf("harness: registry entry %d (%s) declares mask %s configure=%v synchronize=%v, the Go type implements %s configure=%v synchronize=%v",
+				i, ent.Name, maskStr(ent.Mask), ent.HasConfigure, ent.HasSync, maskStr(m), cfg, syn)
+		}
+		if base := registry[i&^3]; (i&1 != 0) != ent.HasConfigure || (i&2 != 0) != ent.HasSync || base.Mask != ent.Mask || base.Kind != ent.Kind {
+			t.Fatalf("harness: registry entry %d (%s) is not variant %d of its handler set", i, ent.Name, i&3)
 		}
 		seenMask[m]++
 	}
 	for m, n := range seenMask {
-		if n != 2 {
-			t.Fatalf("harness: handler set %s has %d types, want 2 (without/with Configure)", maskStr(m), n)
+		if n != 4 {
+			t.Fatalf("harness: handler set %s has %d types, want 4 (without/with Configure x without/with Synchronize)", maskStr(m), n)
 		}
 	}
 
 	pod := &api.PodSandbox{Id: "pod0-exh", Name: "exh", Namespace: "default", Labels: map[string]string{"a": "b"}}
 	ctr := &api.Container{Id: "ctr0-exh", PodSandboxId: "pod0-exh", Name: "c", Env: []string{"A=1"}, Args: []string{"sleep", "1"}}
+	pod2 := &api.PodSandbox{Id: "pod1-exh", Name: "exh2", Namespace: "kube-system", Annotations: map[string]string{"x": "y"}}
+	ctr2 := &api.Container{Id: "ctr1-exh", PodSandboxId: "pod1-exh", Name: "d", State: api.ContainerState_CONTAINER_RUNNING}
 	var okReqs, failReqs []C15Req
 	for e := int32(1); e <= 13; e++ {
 		okReqs = append(okReqs, C15Req{Event: e, Ovh: 0, Res: 1, Adj: 0, Upd: 0})
 		failReqs = append(failReqs, C15Req{Event: e, Ovh: 1, Res: 0, Adj: -1, Upd: -1, Fail: true, Err: fmt.Sprintf("exh-fail-%d", e)})
 	}
 	sess := func(mask api.EventMask, end string, reqs ...[]C15Req) C15Session {
-		s := C15Session{CfgMask: int32(mask), Config: "cfg", Runtime: "verif", Version: "1.0", End: end}
+		s := C15Session{CfgMask: int32(mask), Config: "cfg", Runtime: "verif", Version: "1.0", End: end, SyncUpd: -1}
 		for _, rs := range reqs {
 			s.Reqs = append(s.Reqs, rs...)
 		}
@@ -1357,7 +1552,7 @@ func TestExh_C15(t *testing.T) {
 	mk := func(ti int, sessions ...C15Session) C15Case {
 		return C15Case{
 			Type: ti, Sessions: sessions,
-			Pods: []*api.PodSandbox{pod}, Ctrs: []*api.Container{ctr},
+			Pods: []*api.PodSandbox{pod, pod2}, Ctrs: []*api.Container{ctr, ctr2},
 			Res: []*api.LinuxResources{
 				{Cpu: &api.LinuxCPU{Shares: &api.OptionalUInt64{Value: 7}}, Unified: map[string]string{"verif.slot": "0"}},
 				{Memory: &api.LinuxMemory{Limit: &api.OptionalInt64{Value: 4096}}, Unified: map[string]string{"verif.slot": "1"}},
@@ -1388,17 +1583,50 @@ func TestExh_C15(t *testing.T) {
 			t.Logf("C15 (sweep): overloaded case")
 		}
 	}
+	ch := func(pods []int, ctrs []int) C15Chunk { return C15Chunk{Pods: pods, Ctrs: ctrs} }
+	withSync := func(s C15Session, final bool, fail bool, chunks ...C15Chunk) C15Session {
+		s.SyncChunks, s.SyncFinal, s.SyncUpd = chunks, final, 0
+		if fail {
+			s.SyncFail, s.SyncErr, s.SyncUpd = true, "exh-sync-failed", -1
+		}
+		if !final {
+			s.Reqs = nil
+		}
+		return s
+	}
+	one := ch([]int{0, 1}, []int{1, 0})
 	for ti, ent := range registry {
+		implEv, unimplEv := bitsOf(ent.Mask), bitsOf(validMask&^ent.Mask)
+		lo := evbit(implEv[0])
+		if ent.HasSync {
+			// the Synchronize dimension: one message; then on one stub: split -> unsplit ->
+			// cut short after three messages -> split with a failing handler -> cut short after
+			// one message -> unsplit. Every synchronization follows a different predecessor.
+			m1, m2 := api.EventMask(0), api.EventMask(0)
+			if ent.HasConfigure {
+				m1, m2 = lo, ent.Mask
+			}
+			runOne(mk(ti, withSync(sess(m1, "close", okReqs, failReqs), true, false, one)))
+			runOne(mk(ti,
+				withSync(sess(m2, "stop", okReqs), true, false, ch([]int{0}, []int{0}), ch([]int{1}, []int{1, 1})),
+				withSync(sess(m1, "close", okReqs), true, false, ch([]int{1}, nil)),
+				withSync(sess(m2, "close"), false, false, ch([]int{0}, []int{1}), ch(nil, nil), ch([]int{1, 0}, []int{0})),
+				withSync(sess(m1, "stop", okReqs), true, true, ch(nil, []int{0}), ch([]int{0}, nil), ch([]int{1}, []int{1})),
+				withSync(sess(m2, "stop"), false, false, ch([]int{0, 0}, []int{1})),
+				withSync(sess(m1, "close", okReqs), true, false, ch(nil, []int{1})),
+			))
+			continue
+		}
 		if !ent.HasConfigure {
-			runOne(mk(ti, sess(0, "close", okReqs, failReqs)))
-			// restart: three connections of one stub, ended both ways
-			runOne(mk(ti, sess(0, "stop", okReqs), sess(0, "close", failReqs), sess(0, "stop", okReqs)))
+			runOne(mk(ti, withSync(sess(0, "close", okReqs, failReqs), true, false, one)))
+			// restart: three connections of one stub, ended both ways (no Synchronize handler:
+			// every synchronization message just succeeds)
+			runOne(mk(ti, withSync(sess(0, "stop", okReqs), true, false, one, one), withSync(sess(0, "close", failReqs), false, false, one), sess(0, "stop", okReqs)))
 			continue
 		}
 		for _, m := range []api.EventMask{0, ent.Mask} {
 			runOne(mk(ti, sess(m, "close", okReqs, failReqs)))
 		}
-		implEv, unimplEv := bitsOf(ent.Mask), bitsOf(validMask&^ent.Mask)
 		for _, e := range implEv {
 			if evbit(e) == ent.Mask {
 				continue // singleton: done above
@@ -1412,7 +1640,6 @@ func TestExh_C15(t *testing.T) {
 		fail := sess(0, "close")
 		fail.CfgFail, fail.CfgErr = true, "exh-configure-failed"
 		if len(implEv) > 1 {
-			lo := evbit(implEv[0])
 			runOne(mk(ti, sess(lo, "stop", okReqs), sess(0, "close", okReqs), sess(ent.Mask&^lo, "stop", okReqs)))
 			runOne(mk(ti, sess(ent.Mask&^lo, "close", okReqs), sess(lo, "stop", okReqs), sess(ent.Mask, "close", okReqs)))
 		} else {
@@ -1425,7 +1652,7 @@ func TestExh_C15(t *testing.T) {
 		}
 	}
 	r.SetExtra("exhaustive", map[string]any{
-		"subdomain": "every generated plugin type (256: 128 handler sets x with/without Configure) x each of the 13 event kinds (succeeding and failing handler); Configure returning 0, the implemented mask, each single implemented event, implemented+each single unimplemented event; per type restart sequences on one stub (3 connections; with Configure: subset -> 0 -> complementary subset, complementary subset -> subset -> implemented mask, rejected -> error -> implemented mask)",
+		"subdomain": "every generated plugin type (512: 128 handler sets x with/without Configure x with/without Synchronize) x each of the 13 event kinds (succeeding and failing handler); for the types without Synchronize handler: Configure returning 0, the implemented mask, each single implemented event, implemented+each single unimplemented event; per type restart sequences on one stub (3 connections; with Configure: subset -> 0 -> complementary subset, complementary subset -> subset -> implemented mask, rejected -> error -> implemented mask); for the types with Synchronize handler one stub synchronized six times in a row: split -> one message -> cut short after 3 messages -> split with failing handler -> cut short after 1 message -> one message",
 		"types":     len(registry),
 		"cases":     cases,
 		"sessions":  sessions,
